@@ -266,7 +266,12 @@ class graph(Graph):
 
     def __cut_add_vertex(self, v, mz, vaddr, mo):
         oldnode = mo.data.val
-        if oldnode == v:
+        if oldnode == v or (oldnode.data._is_block and oldnode.data == v.data):
+            # same node, or another node object for the very same block
+            return oldnode
+        if oldnode.data._is_block and vaddr == oldnode.data.address:
+            # another block starting at the same address (the old node has
+            # been split since): the graph already holds its instructions
             return oldnode
         # so v cuts an existing block:
         # if vaddr matches an oldblock instr, cut it:
@@ -304,13 +309,13 @@ class graph(Graph):
             self.overlay = support
         i = support.locate(vaddr)
         # check if block intersects others:
-        if i is not None:
-            mo = support._map[i]
-            if vaddr in mo:
+        if i is not None or len(support._map) > 0:
+            mo = support._map[i] if i is not None else None
+            if mo is not None and vaddr in mo:
                 return self.__cut_add_vertex(v, support, vaddr, mo)
             else:  # v does not cut an existing block,
-                try:  # but may swallow next one...
-                    nextmo = support._map[i + 1]
+                try:  # but may swallow next one (the first one if v precedes them all)...
+                    nextmo = support._map[i + 1 if i is not None else 0]
                 except IndexError:
                     # no more nodes here so back to default case:
                     pass
